@@ -147,7 +147,32 @@ def c05(ctx):
     ctx.coverage['hash_observations'] = n_obs
 
 
+# ---------------------------------------------------------------- C04
+class LayoutRender(TypeRender):
+    with_finger = False
+
+
+def c04(ctx):
+    quick = ctx.tier == 'quick'
+    runs = [{'module': 'MC_C04', 'cfg': 'MC_C04_quick.cfg', 'workers': 8}] if quick else \
+           [{'module': 'MC_C04', 'cfg': 'MC_C04_thorough.cfg', 'workers': 12, 'timeout': 3000, 'heap': '16g'}]
+
+    def calls(r):
+        if 'Ord' in r.traits:
+            return ['run_cmp_layout::<%s, _>(&mut out, &dom, Some(&total_cmp_of::<%s>));' % (r.name, r.name)]
+        return ['run_cmp_layout::<%s, _>(&mut out, &dom, None);' % r.name]
+
+    r_property(ctx, runs, ['DoSeal', 'DoBegin', 'Step', 'Return'], LayoutRender, calls, [0, 1],
+               COMMON_ASSUMPTIONS + ['payload constructors (probes::mk_*) are order-preserving on the value domain',
+                                     'memory layout is outside TLA+: the specification reads discriminants only; the harness supplies payload types with '
+                                     'niches / zero size, #[repr] variants and three neighbour-byte placements per comparison'],
+               'enums within the bounds of the MC_C04 cfg: variant shapes (unit / one payload) x explicit discriminants (negative, gaps, descending, > 127) x #[repr] x '
+               'payload types x {PartialOrd alone, PartialOrd+Ord}; all ordered pairs of values, each comparison under three neighbour-byte placements; '
+               'non-trivial = more than one variant or an explicit discriminant')
+
+
 REGISTRY = {
+    'C04': c04,
     'C05': c05,
     'C03': c03,
     'C02': c02,
